@@ -605,6 +605,10 @@ fn strategy(tier: Tier) -> BoxedStrategy<Case> {
         .boxed()
 }
 
+pub fn strategy_pub(tier: Tier) -> BoxedStrategy<Case> {
+    strategy(tier)
+}
+
 pub fn checks() -> Vec<Box<dyn DynCheck>> {
     vec![Box::new(C19)]
 }
